@@ -18,13 +18,25 @@
 //! lattice -> degrees (x * 360 / 2^24, exact), f64 -> integer logging.
 //! Every decision is taken by spec/trace/Trace_Trajectory.tla.
 //!
-//! usage: c06 <scenarios.ndjson> <trace.ndjson>
+//! usage: c06 <scenarios.ndjson> <trace.ndjson>                      in-process runs (above)
+//!        c06 d1090 <decode1090 exe> <scenarios.ndjson> <trace.ndjson> <tmpdir>
+//!              end to end through the decode1090 program: the reports are written as its JSONL
+//!              input ({"timestamp","frame","metadata":[]}), one run per receiver reference
+//!              (`--deduplication 0 --reference=lat,lon`), the latitude/longitude of its output
+//!              records are logged in the same event format (family "d1090:<fam>"; the three
+//!              answers are the same value: only the never-wrong clause is judged there)
+//!        c06 frames <scenarios.ndjson> <out.ndjson>     frames (plain and as Beast records) and the
+//!              reference strings of two-receiver scenarios, for the jet1090 end-to-end segment
+//!        c06 records <scenarios.ndjson> <records.ndjson> <trace.ndjson>
+//!              what jet1090 printed for those frames -> events (family "jet:<fam>")
+//! Airborne frames carry altitudes >= 1000 ft (decode1090 moves its reference below that).
 use rs1090::decode::cpr::{decode_position, decode_positions, AircraftState, Position};
 use rs1090::decode::{Message, TimedMessage, DF, ICAO};
 use rs1090::prelude::*;
 use rsdriver::*;
 use serde_json::{json, Value};
-use std::collections::BTreeMap;
+use std::collections::{BTreeMap, HashMap};
+use std::str::FromStr;
 use std::panic::{catch_unwind, AssertUnwindSafe};
 
 const LATTICE: f64 = 16777216.0;
@@ -70,19 +82,20 @@ struct Report {
     u: i64,
 }
 
+/// one address per (scenario, aircraft 0..4): scenarios can share one decoder run
 fn icao_of(sc: i64, ac: i64) -> u64 {
-    0x400000 | (((sc as u64) & 0xfff) << 8) | ((ac as u64) & 0xff)
+    ((sc as u64 * 5 + (ac as u64 % 5)) % 0xb00000) + 0x400001
 }
 
-/// DF17 (DF18 CF=0 for aircraft 4) frame carrying an airborne or surface position.
+/// DF17 (DF18 for aircraft 3: CF=1, and 4: CF=0) frame carrying an airborne or surface position.
 fn frame(sc: i64, r: &Report, k: usize) -> Vec<u8> {
     let fill = (sc as u64).wrapping_mul(31).wrapping_add(k as u64 * 7).wrapping_add(r.ac as u64);
-    let (df, first) = if r.ac % 4 == 0 { (18u64, 0u64) } else { (17u64, 5u64) };
+    let (df, first) = match r.ac { 4 => (18u64, 0u64), 3 => (18u64, 1u64), _ => (17u64, 5u64) };
     let icao = icao_of(sc, r.ac);
     let payload = if r.kind == 0 {
         let tcs = [9u64, 10, 11, 12, 13, 14, 15, 16, 17, 18, 20, 21, 22];
         let tc = tcs[(fill % tcs.len() as u64) as usize];
-        let alt = 0x010 | ((fill % 0x7f) << 5) | (fill & 0xf); // Q = 1
+        let alt = 0x010 | ((5 + fill % 0x7a) << 5) | (fill & 0xf); // Q = 1, N >= 80: 1000 ft and above
         pack(&[(5, df), (3, first), (24, icao), (5, tc), (2, 0), (1, 0), (12, alt), (1, 0),
                (1, r.par as u64), (17, r.yz), (17, r.xz)])
     } else {
@@ -301,11 +314,274 @@ fn run_scenario(sc: &Value, tr: &mut Trace, stats: &mut Stats) {
     }
 }
 
+// ------------------------------------------------------------------ end-to-end segments
+
+struct Scen {
+    id: i64,
+    fam: String,
+    refs: Vec<(i64, i64)>,       // receiver references (lattice); one, or one per source
+    rx_of: BTreeMap<i64, usize>, // aircraft -> index of the source that hears it (default 0)
+    reports: Vec<Report>,
+    frames: Vec<Vec<u8>>,
+    fresh: Vec<Option<Message>>,
+    pause_before: Vec<i64>,
+}
+
+fn load(sc: &Value) -> Scen {
+    let id = sc["id"].as_i64().expect("id");
+    let mut refs = vec![];
+    if let Some(a) = sc["refs"].as_array() {
+        for r in a {
+            refs.push((geti(r, 0), geti(r, 1)));
+        }
+    } else if sc["ref"].is_array() {
+        refs.push((geti(&sc["ref"], 0), geti(&sc["ref"], 1)));
+    }
+    let mut rx_of = BTreeMap::new();
+    if let Some(a) = sc["rxof"].as_array() {
+        for r in a {
+            rx_of.insert(geti(r, 0), geti(r, 1) as usize);
+        }
+    }
+    let reports: Vec<Report> = sc["reports"].as_array().expect("reports").iter().map(|r| Report {
+        ac: geti(r, 0), ts_ms: geti(r, 1), kind: geti(r, 2), par: geti(r, 3), l: geti(r, 4), m: geti(r, 5),
+        yz: geti(r, 6) as u64, xz: geti(r, 7) as u64, u: geti(r, 8),
+    }).collect();
+    let frames: Vec<Vec<u8>> = reports.iter().enumerate().map(|(k, r)| frame(id, r, k)).collect();
+    let fresh = frames.iter().map(|f| parse(f)).collect();
+    let pause_before = sc["pause_before"].as_array().map(|a| a.iter().filter_map(|x| x.as_i64()).collect()).unwrap_or_default();
+    Scen { id, fam: sc["fam"].as_str().unwrap_or("").to_string(), refs, rx_of, reports, frames, fresh, pause_before }
+}
+
+/// "lat,lon" as handed to the programs; the value they parse from it is what the ruler uses
+fn ref_str(r: (i64, i64)) -> String {
+    format!("{:.9},{:.9}", deg(r.0), deg(r.1))
+}
+fn ref_plain(s: &str) -> (f64, f64) {
+    let p: Vec<f64> = s.split(',').map(|x| x.parse().unwrap()).collect();
+    (p[0], p[1])
+}
+
+/// premise quantities by the ruler: (largest implied ground speed mm/s, largest distance of a
+/// surface report from the reference of the source that hears it)
+fn premise(sc: &Scen) -> (i64, i64) {
+    let mut acs: Vec<i64> = sc.reports.iter().map(|r| r.ac).collect();
+    acs.sort();
+    acs.dedup();
+    let mut vmax: i64 = 0;
+    for &a in &acs {
+        let mut pts: Vec<(i64, i64, i64)> = sc.reports.iter().filter(|r| r.ac == a).map(|r| (r.ts_ms, r.l, r.m)).collect();
+        pts.sort();
+        pts.dedup();
+        for w in pts.windows(2) {
+            let d = ruler_mm(deg(w[0].1), deg(w[0].2), deg(w[1].1), deg(w[1].2));
+            let dt = w[1].0 - w[0].0;
+            let v = if dt == 0 { if d == 0 { 0 } else { SAT } } else { ((d as f64) * 1000.0 / dt as f64).ceil() as i64 };
+            vmax = vmax.max(v.min(SAT));
+        }
+    }
+    let mut sdref: i64 = 0;
+    for r in &sc.reports {
+        if r.kind == 1 {
+            let rx = *sc.rx_of.get(&r.ac).unwrap_or(&0);
+            sdref = sdref.max(match sc.refs.get(rx) {
+                Some(&rf) => {
+                    let (la, lo) = ref_plain(&ref_str(rf));
+                    ruler_mm(deg(r.l), deg(r.m), la, lo)
+                }
+                None => SAT,
+            });
+        }
+    }
+    (vmax, sdref)
+}
+
+fn answer(lat: Option<f64>, lon: Option<f64>, tlat: f64, tlon: f64) -> Value {
+    match (lat, lon) {
+        (Some(la), Some(lo)) => json!({
+            "o": "some", "lat": scale(la, 1.0e6), "lon": scale(lo, 1.0e6),
+            "latb": f64_bits(la), "lonb": f64_bits(lo), "err": ruler_mm(tlat, tlon, la, lo),
+        }),
+        (None, None) => json!({"o": "none"}),
+        _ => json!({"o": "half"}),
+    }
+}
+
+/// events of one scenario judged end to end: `answers` = (report index, ts to log, lat, lon)
+fn emit_e2e(tr: &mut Trace, sc: &Scen, prefix: &str, answers: &[(usize, i64, Option<f64>, Option<f64>)], st: &mut Value) {
+    let (vmax, sdref) = premise(sc);
+    let mut acs: Vec<i64> = sc.reports.iter().map(|r| r.ac).collect();
+    acs.sort();
+    acs.dedup();
+    tr.emit(json!({
+        "e": "scen", "sc": sc.id, "fam": format!("{}:{}", prefix, sc.fam), "n": answers.len(), "nac": acs.len(),
+        "ref": match sc.refs.first() { Some(r) => json!([r.0, r.1]), None => json!("none") },
+        "refu": -999999, "vmax": vmax, "sdref": sdref, "refkept": true, "batch_ok": true,
+    }));
+    st["scenarios"] = json!(st["scenarios"].as_i64().unwrap_or(0) + 1);
+    for (n, &(k, ts, lat, lon)) in answers.iter().enumerate() {
+        let r = &sc.reports[k];
+        let a = answer(lat, lon, deg(r.l), deg(r.m));
+        let key = format!("{}_{}", if r.kind == 0 { "air" } else { "surf" }, a["o"].as_str().unwrap());
+        st[&key] = json!(st[&key].as_i64().unwrap_or(0) + 1);
+        if r.ac >= 3 {
+            st["df18_records"] = json!(st["df18_records"].as_i64().unwrap_or(0) + 1);
+        }
+        tr.emit(json!({
+            "e": "rep", "sc": sc.id, "k": n + 1, "ac": r.ac, "ts": ts, "kind": r.kind, "par": r.par,
+            "L": r.l, "M": r.m, "u": -999999, "yz": r.yz, "xz": r.xz,
+            "hex": hex::encode(&sc.frames[k]),
+            "parsed": parsed(&sc.fresh[k]),
+            "inter": a.clone(), "iso": a.clone(), "batch": a,
+        }));
+    }
+}
+
+fn fail(msg: String) -> ! {
+    eprintln!("c06: {msg}");
+    std::process::exit(3)
+}
+
+/// decode1090, one run per receiver reference (scenarios use disjoint addresses)
+fn run_d1090(exe: &str, scenarios: &[Value], tr: &mut Trace, tmp: &str) -> Value {
+    let scens: Vec<Scen> = scenarios.iter().map(load).collect();
+    let mut groups: BTreeMap<String, Vec<usize>> = BTreeMap::new();
+    for (i, sc) in scens.iter().enumerate() {
+        // the reference only matters to surface reports: scenarios without any share one run
+        let surf = sc.reports.iter().any(|r| r.kind == 1);
+        let key = match sc.refs.first() { Some(&r) if surf => ref_str(r), _ => "none".to_string() };
+        groups.entry(key).or_default().push(i);
+    }
+    let mut st = json!({"runs": 0, "scenarios": 0, "lines_in": 0, "lines_out": 0});
+    let mut answers: Vec<Vec<(usize, i64, Option<f64>, Option<f64>)>> = scens.iter().map(|_| vec![]).collect();
+    for (gi, (key, members)) in groups.iter().enumerate() {
+        if key != "none" {
+            let p = Position::from_str(key).unwrap_or_else(|e| fail(format!("reference {key} not parsed: {e}")));
+            if (p.latitude, p.longitude) != ref_plain(key) {
+                fail(format!("reference string {key} is read as another place ({}, {})", p.latitude, p.longitude));
+            }
+        }
+        let path = format!("{tmp}/d1090_{gi}.jsonl");
+        let mut text = String::new();
+        let mut expect: Vec<(usize, usize)> = vec![];
+        for &i in members {
+            for (k, r) in scens[i].reports.iter().enumerate() {
+                text.push_str(&json!({"timestamp": r.ts_ms as f64 / 1000.0, "frame": hex::encode(&scens[i].frames[k]), "metadata": []}).to_string());
+                text.push('\n');
+                expect.push((i, k));
+            }
+        }
+        std::fs::write(&path, text).expect("write jsonl");
+        let mut cmd = std::process::Command::new(exe);
+        cmd.arg("--input").arg(&path).arg("--deduplication").arg("0");
+        if key != "none" {
+            cmd.arg(format!("--reference={key}"));
+        }
+        let out = cmd.output().unwrap_or_else(|e| fail(format!("cannot run {exe}: {e}")));
+        let _ = std::fs::remove_file(&path);
+        let stdout = String::from_utf8_lossy(&out.stdout);
+        let lines: Vec<&str> = stdout.lines().filter(|l| l.starts_with('{')).collect();
+        st["runs"] = json!(st["runs"].as_i64().unwrap() + 1);
+        st["lines_in"] = json!(st["lines_in"].as_i64().unwrap() + expect.len() as i64);
+        st["lines_out"] = json!(st["lines_out"].as_i64().unwrap() + lines.len() as i64);
+        if lines.len() != expect.len() {
+            fail(format!("decode1090 printed {} records for {} input lines (rc {:?}): {}", lines.len(), expect.len(),
+                         out.status.code(), String::from_utf8_lossy(&out.stderr)));
+        }
+        for (line, &(i, k)) in lines.iter().zip(expect.iter()) {
+            let v: Value = serde_json::from_str(line).unwrap_or_else(|e| fail(format!("record not JSON: {e}")));
+            if v["frame"].as_str() != Some(hex::encode(&scens[i].frames[k]).as_str()) {
+                fail(format!("decode1090 record out of order: {line}"));
+            }
+            let ts = (v["timestamp"].as_f64().unwrap_or(-1.0) * 1000.0).round() as i64;
+            answers[i].push((k, ts, v["latitude"].as_f64(), v["longitude"].as_f64()));
+        }
+    }
+    for (i, sc) in scens.iter().enumerate() {
+        emit_e2e(tr, sc, "d1090", &answers[i], &mut st);
+    }
+    st
+}
+
+/// frames of two-receiver scenarios for the jet1090 segment
+fn run_frames(scenarios: &[Value], out: &str) {
+    let mut tr = Trace::create(out);
+    for v in scenarios {
+        let sc = load(v);
+        let refs: Vec<Value> = sc.refs.iter().map(|&r| {
+            let s = ref_str(r);
+            let ok = match Position::from_str(&s) {
+                Ok(p) => (p.latitude, p.longitude) == ref_plain(&s),
+                Err(_) => false,
+            };
+            json!({"s": s, "ok": ok})
+        }).collect();
+        let frames: Vec<Value> = sc.frames.iter().enumerate().map(|(k, f)| {
+            let n = (k as u64 + 1) * 12_000; // 12 MHz counter, 1 ms steps
+            let mut b = vec![0x1a, 0x33];
+            b.extend_from_slice(&n.to_be_bytes()[2..8]);
+            b.push(0x50);
+            b.extend_from_slice(f);
+            json!({"hex": hex::encode(f), "beast": hex::encode(&b), "rx": sc.rx_of.get(&sc.reports[k].ac).unwrap_or(&0)})
+        }).collect();
+        tr.emit(json!({"id": sc.id, "fam": sc.fam, "refs": refs, "frames": frames, "pause_before": sc.pause_before}));
+    }
+    tr.flush();
+}
+
+/// what jet1090 printed -> events
+fn run_records(scenarios: &[Value], records: &[Value], tr: &mut Trace) -> Value {
+    let mut st = json!({"scenarios": 0, "records": 0, "unknown_frames": 0});
+    let by_id: HashMap<i64, &Value> = records.iter().map(|r| (r["id"].as_i64().unwrap(), r)).collect();
+    for v in scenarios {
+        let sc = load(v);
+        let Some(rec) = by_id.get(&sc.id) else { continue };
+        let mut answers = vec![];
+        let t0 = rec["recs"].as_array().and_then(|a| a.first()).and_then(|r| r["timestamp"].as_f64()).unwrap_or(0.0);
+        for r in rec["recs"].as_array().unwrap_or(&vec![]) {
+            let h = r["frame"].as_str().unwrap_or("");
+            match sc.frames.iter().position(|f| hex::encode(f) == h) {
+                Some(k) => {
+                    let ts = ((r["timestamp"].as_f64().unwrap_or(t0) - t0) * 1000.0).round() as i64;
+                    answers.push((k, ts.clamp(-1_000_000_000, 1_000_000_000), r["latitude"].as_f64(), r["longitude"].as_f64()));
+                    st["records"] = json!(st["records"].as_i64().unwrap() + 1);
+                }
+                None => st["unknown_frames"] = json!(st["unknown_frames"].as_i64().unwrap() + 1),
+            }
+        }
+        emit_e2e(tr, &sc, "jet", &answers, &mut st);
+    }
+    st
+}
+
 fn main() {
     quiet_panics();
     let args: Vec<String> = std::env::args().skip(1).collect();
+    match args.first().map(|s| s.as_str()) {
+        Some("d1090") if args.len() == 5 => {
+            let mut tr = Trace::create(&args[3]);
+            let mut st = run_d1090(&args[1], &read_lines(&args[2]), &mut tr, &args[4]);
+            tr.flush();
+            st["events"] = json!(tr.n);
+            println!("{st}");
+            return;
+        }
+        Some("frames") if args.len() == 3 => {
+            run_frames(&read_lines(&args[1]), &args[2]);
+            return;
+        }
+        Some("records") if args.len() == 4 => {
+            let mut tr = Trace::create(&args[3]);
+            let mut st = run_records(&read_lines(&args[1]), &read_lines(&args[2]), &mut tr);
+            tr.flush();
+            st["events"] = json!(tr.n);
+            println!("{st}");
+            return;
+        }
+        _ => {}
+    }
     if args.len() != 2 {
-        eprintln!("usage: c06 <scenarios.ndjson> <trace.ndjson>");
+        eprintln!("usage: c06 <scenarios.ndjson> <trace.ndjson> | d1090 .. | frames .. | records ..");
         std::process::exit(2);
     }
     let scenarios = read_lines(&args[0]);
